@@ -119,7 +119,36 @@ func isJSON(r RawRequest) bool {
 }
 
 // mutate derives mutants of a valid request. seed steers the undirected ones.
-func mutate(base RawRequest, seed int, bodyRequired bool, scalarKeys []string, knownPaths bool) []mutation {
+// typedParam is a primitive integer parameter together with texts just outside the range of its Go type.
+type typedParam struct {
+	In, Name string
+	Outside  []string
+}
+
+// outsideOf lists integers just outside the range of the Go type that ogen uses for the format.
+func outsideOf(format string) []string {
+	switch format {
+	case "int8":
+		return []string{"128", "-129", "256"}
+	case "int16":
+		return []string{"32768", "-32769", "65536"}
+	case "int32":
+		return []string{"2147483648", "-2147483649", "4294967297"}
+	case "uint8":
+		return []string{"256", "-1"}
+	case "uint16":
+		return []string{"65536", "-1"}
+	case "uint32":
+		return []string{"4294967296", "-1"}
+	case "uint64", "uint":
+		return []string{"18446744073709551616", "-1"}
+	case "", "int64", "int":
+		return []string{"9223372036854775808", "-9223372036854775809"}
+	}
+	return nil
+}
+
+func mutate(base RawRequest, seed int, bodyRequired bool, scalarKeys []string, knownPaths bool, typed ...typedParam) []mutation {
 	var out []mutation
 	add := func(name, expect string, f func(r *RawRequest)) {
 		r := base.clone()
@@ -179,6 +208,32 @@ func mutate(base RawRequest, seed int, bodyRequired bool, scalarKeys []string, k
 		key := k
 		if strings.Contains("&"+base.Query+"&", "&"+url.QueryEscape(key)+"=") || strings.Contains("&"+base.Query+"&", "&"+key+"=") {
 			add("query-scalar-key-repeated:"+key, "400", func(r *RawRequest) { r.Query = r.Query + "&" + url.QueryEscape(key) + "=zz9" })
+		}
+	}
+	// an integer parameter just outside the range of its declared format is not a value of the schema
+	for _, tp := range typed {
+		tp := tp
+		for _, text := range tp.Outside {
+			text := text
+			switch tp.In {
+			case "query":
+				parts := strings.Split(base.Query, "&")
+				for i, kv := range parts {
+					if k, _, ok := strings.Cut(kv, "="); ok && (k == tp.Name || k == url.QueryEscape(tp.Name)) {
+						i := i
+						add("integer-outside-format:"+tp.Name+"="+text, "400", func(r *RawRequest) {
+							p2 := append([]string{}, parts...)
+							p2[i] = k + "=" + text
+							r.Query = strings.Join(p2, "&")
+						})
+						break
+					}
+				}
+			case "header":
+				if base.Header.Get(tp.Name) != "" {
+					add("integer-outside-format:"+tp.Name+"="+text, "400", func(r *RawRequest) { r.Header.Set(tp.Name, text) })
+				}
+			}
 		}
 	}
 	unknownExp := ""
@@ -489,7 +544,22 @@ func fuzzPackage(u *vk.Unit, p *reg.Package, meta Meta, replay *FuzzCase, pkg st
 					}
 				}
 			}
-			for _, mu := range mutate(base, seed, bodyRequired, scalarKeys, meta.Name == "") {
+			var typed []typedParam
+			for _, op := range meta.Doc.Ops {
+				if !strings.EqualFold(op.ID, m.Name) {
+					continue
+				}
+				for _, prm := range op.Params {
+					sch := meta.Doc.Components.Resolve(prm.Schema)
+					if sch == nil || sch.Type != "integer" || prm.Content != "" || (prm.In != "query" && prm.In != "header") {
+						continue
+					}
+					if out := outsideOf(sch.Format); out != nil {
+						typed = append(typed, typedParam{In: prm.In, Name: prm.Name, Outside: out})
+					}
+				}
+			}
+			for _, mu := range mutate(base, seed, bodyRequired, scalarKeys, meta.Name == "", typed...) {
 				mkState(false)
 				u.Eval(1)
 				f := judge(mu.name, mu.expect, mu.req, false)
